@@ -44,3 +44,24 @@ PROPS["C06"] = dict(
                  "extendp = true: only the round trip inside the documented extended domain is claimed (DESIGN §5)",
                  "AngDiff/AngNormalize/LatFix models of C16"],
 )
+
+# ---- deepening round G06 ------------------------------------------------------------------------------------------------
+import hashlib as _hl06, os as _os06
+
+_verif06 = _os06.path.dirname(_os06.path.dirname(_os06.path.dirname(_os06.path.abspath(__file__))))
+_repo06 = _os06.environ.get("GV_REPO", "/repo")
+
+
+def _tmproj_digest():
+    # the harness compiles $GV_REPO/tools/TransverseMercatorProj.cpp into itself: make the harness cache key depend on its text
+    h = _hl06.sha256()
+    try:
+        h.update(open(_os06.path.join(_repo06, "tools", "TransverseMercatorProj.cpp"), "rb").read())
+    except OSError:
+        h.update(b"missing:TransverseMercatorProj.cpp")
+    return h.hexdigest()[:16]
+
+
+PROPS["C06"]["harnesses"] = [dict(name="C06", procs_quick=2, procs_thorough=16,
+                                  extra=["-I" + _os06.path.join(_verif06, "harness", "C06_tools"), "-DGV_TOOLS_DIGEST=0x" + _tmproj_digest()])]
+PROPS["C06"]["gens"] = ["gen_tmseries", "gen_tmexact", "gen_math", "gen_auxseries"]
